@@ -55,8 +55,12 @@ def drive_case(bins, case, idx):
             if content is not None:
                 d = os.path.join(fx.repo, tp, "cfg/maps" if case["customdirs"] else "monorail/argmap")
                 os.makedirs(d, exist_ok=True)
+                on_disk = dict(content)
+                if idx % 4 == 2 and m == "base" and tp == "svc":
+                    # a base argmap that takes long to parse next to tiny named ones (order must not depend on parse time)
+                    on_disk["zz-unused-command"] = ["filler-%06d-%s" % (i, "x" * 40) for i in range(120000)]
                 with open(os.path.join(d, m + ".json"), "w") as f:
-                    json.dump(content, f)
+                    json.dump(on_disk, f)
         candidates = {}
         for tp in tpaths:
             cdir = ("tools/cmd" if case.get("shareddir") else tp + "/scripts") if case["customdirs"] else (tp + "/monorail/cmd")
@@ -65,6 +69,13 @@ def drive_case(bins, case, idx):
                 # the real one plus decoys whose names share a prefix/suffix with the command name
                 fx.add_cmd(tp, c, [{"op": "exit", "code": 0}], cmd_dir=cdir, ext=".sh",
                            ident={"cmd": c, "target": tp, "slot": c})
+                if idx % 3 == 1 and tp == "svc2" and not case.get("shareddir"):
+                    # the command file is a symbolic link to an executable kept elsewhere
+                    real = os.path.join(fx.repo, "shared-tools", "%s-%s" % (tp, c))
+                    os.makedirs(os.path.dirname(real), exist_ok=True)
+                    link = os.path.join(fx.repo, cdir, c + ".sh")
+                    os.replace(link, real)
+                    os.symlink(real, link)
                 cands.append({"path": runlib.P(cdir + "/" + c + ".sh"), "stem": c})
                 for stem in (c + "2", c[:-1], "x" + c, c + ".d"):
                     fx.add_cmd(tp, stem, [{"op": "exit", "code": 0}], cmd_dir=cdir, ext=".sh",
